@@ -298,8 +298,14 @@ class ModuleFinder:
             # We never enter this condition again in recursive calls,
             # so we just have to set `seen` once regardless of its value.
             seen = set()
+            # Like Python, only use the first module of the same name found in different portions
+            # (a module and its stubs do not compete: they are merged together later).
+            found: dict[tuple[tuple[str, ...], str], Path] = {}
             for path_elem in path:
-                yield from self.iter_submodules(path_elem, seen)
+                for name_parts, filepath in self.iter_submodules(path_elem, seen):
+                    key = (name_parts, filepath.suffix)
+                    if key[1] not in {".py", ".pyi"} or found.setdefault(key, path_elem) == path_elem:
+                        yield name_parts, filepath
             return
 
         if path.stem == "__init__":
